@@ -35,7 +35,9 @@ pub enum Op {
     Span(u8),
     Clone,
     Flatten,
-    /// `add_sibling_alts_for_unknown_field` with a name far from every generated one: nothing observable changes
+    /// `at_path(&syn::Path)`: the same as `at` with the path's text
+    AtPath(String),
+    /// `add_sibling_alts_for_unknown_field` with a name (`~~~~~~~~~~~~`) that shares no character with any generated one: nothing observable changes
     Alts,
 }
 
@@ -290,6 +292,12 @@ pub fn build(n: &Node, pool: &Pool) -> (Error, M) {
                 e = e.at(s);
                 m.at(s);
             }
+            Op::AtPath(txt) => {
+                let path: syn::Path = syn::parse_str(txt).expect("path");
+                e = e.at_path(&path);
+                // (path_to_string drops a leading `::`)
+                m.at(txt.trim_start_matches("::"));
+            }
             Op::Span(i) => {
                 let sp = pool.span(*i);
                 e = e.with_span(&sp);
@@ -305,7 +313,7 @@ pub fn build(n: &Node, pool: &Pool) -> (Error, M) {
             Op::Alts => {
                 // (what generated code calls on the outcome of a flatten member; the name is similar to nothing, so
                 // no suggestion appears or changes: count, order, paths, messages and spans stay as they are)
-                e = e.add_sibling_alts_for_unknown_field(&["qqqqqqqqqqqq"]);
+                e = e.add_sibling_alts_for_unknown_field(&["~~~~~~~~~~~~"]);
             }
         }
     }
@@ -351,6 +359,7 @@ fn op() -> impl Strategy<Value = Op> {
         1 => Just(Op::Clone),
         1 => Just(Op::Flatten),
         1 => Just(Op::Alts),
+        2 => prop::sample::select(vec!["k", "a::b", "::c::d", "r#type", "self::x"]).prop_map(|s| Op::AtPath(s.to_string())),
     ]
 }
 
@@ -386,12 +395,13 @@ pub fn node_from(d: &mut vmodel::dec::D, depth: usize) -> Node {
     fn ops(d: &mut vmodel::dec::D) -> Vec<Op> {
         let n = d.below(4);
         (0..n)
-            .map(|_| match d.weighted(&[5, 4, 1, 1, 1]) {
+            .map(|_| match d.weighted(&[5, 4, 1, 1, 1, 2]) {
                 0 => Op::At(nm(d)),
                 1 => Op::Span(d.byte()),
                 2 => Op::Clone,
                 3 => Op::Flatten,
-                _ => Op::Alts,
+                4 => Op::Alts,
+                _ => Op::AtPath(d.pick(&["k", "a::b", "::c::d", "r#type", "self::x"]).to_string()),
             })
             .collect()
     }
@@ -435,7 +445,7 @@ fn expect_display(l: &MLeaf) -> String {
 }
 
 fn located_levels(n: &Node) -> usize {
-    let own = n.ops.iter().any(|o| matches!(o, Op::At(_))) as usize;
+    let own = n.ops.iter().any(|o| matches!(o, Op::At(_) | Op::AtPath(_))) as usize;
     match &n.body {
         Body::Leaf(_) => own,
         Body::Multi(k) => own + k.iter().map(located_levels).max().unwrap_or(0),
